@@ -23,7 +23,8 @@ PROPS["C06"] = {
          "constants": {"MaxK": q(tier, 3, 5), "Dev": DEV_CURRENT, "EmitAlts": "FALSE"},
          "invariants": ["EngInAdm", "LangIsAdm", "Lifted", "OrderFree", "LangOrderFree", "Emit"],
          "forms": ["and_chain", "or_chain", "map_group", "seq_group", "not1", "all_seq", "of_seq",
-                   "all_map", "of_map", "klist", "kall", "kof", "klist_mix", "kall_mix", "kof_mix", "knot", "mx_not", "nest_and"],
+                   "all_map", "of_map", "klist", "kall", "kof", "klist_mix", "kall_mix", "kof_mix", "knot", "mx_not", "nest_and",
+                   "nall_seq", "nof_seq", "nall_map", "nof_map"],
          "workers": q(tier, 4, 8)},
         FOLD_TLC(tier),
     ] + ([FOLD_APALACHE] if tier == "thorough" else []),
@@ -91,7 +92,8 @@ PROPS["C12"] = {
     "title": "Loading, optimising and matching are deterministic and pure",
     "models": lambda tier: [],
     "second_process": "reverse",
-    "gens": lambda tier: [{"topic": "pure", "n": q(tier, 400, 8000)}, {"topic": "bigq", "n": q(tier, 8, 60)}],
+    "gens": lambda tier: [{"topic": "pure", "n": q(tier, 400, 8000)}, {"topic": "bigq", "n": q(tier, 8, 60)},
+                          {"topic": "bigp", "n": q(tier, 3, 6)}],
     "rules": ["den", "print_differs", "opt_panic", "match_panic", "reopt_differs"],
     "chunk": 300,
 }
@@ -129,7 +131,7 @@ PROPS["C04"] = {
         {"module": "MC_Ident", "constants": {"MaxLen": q(tier, 3, 4), "Dev": "{}", "IcBuild": "FALSE"},
          "invariants": ["NoPanic", "WriteRead", "Emit"], "forms": ["ok", "err", "unk"], "workers": 8},
     ],
-    "gens": lambda tier: [{"topic": "fuzz", "n": q(tier, 3000, 60000)}],
+    "gens": lambda tier: [{"topic": "fuzz", "n": q(tier, 3000, 60000)}, {"topic": "typ", "n": q(tier, 400, 8000)}],
     "rules": ["load_panic", "ident_panic"],
     "chunk": 3000,
 }
